@@ -18,6 +18,13 @@ func (l LockSet) clone() LockSet {
 	return o
 }
 
+// With returns a copy of the set in which class is held exclusively.
+func (l LockSet) With(class string) LockSet {
+	o := l.clone()
+	o[class] = 'W'
+	return o
+}
+
 // Has reports whether class is held (write=true requires exclusive mode).
 func (l LockSet) Has(class string, write bool) bool {
 	m, ok := l[class]
